@@ -319,6 +319,13 @@ def _to68_check(x, w):
     return (f'to68({x.hex()}) = 0x{w:08X} decodes to {float(d)!r}, not to the minimum -2^127 (0x80000000)', F_TO68MIN)
 
 
+def _canon68(w):
+    s, E, F = w >> 31, (w >> 23) & 0xFF, w & 0x7FFFFF
+    if s == 0:
+        return F >= (1 << 22) or (E == 0 and F != 0) or (E == 128 and F == 0)
+    return 1 <= F <= (1 << 22) or (E == 255 and F > (1 << 22))
+
+
 def _to68_chunk(xs):
     M = _M
     res, fails = [], []
@@ -333,6 +340,13 @@ def _to68_chunk(xs):
             bad = _to68_check(x, w) if not isinstance(w, str) else (f'{name}.to68({x.hex()}) raised {w}', None)
             if bad:
                 fails.append(({'op': 'to68', 'x': x.hex(), 'impl': name}, f'{name}: ' + bad[0], bad[1]))
+            if isinstance(w, int) and 0 <= w < (1 << 32):
+                # every encoder output is a canonical word and is reproduced by to68(from68(.))
+                w2 = M[name].to68(M[name].from68(w))
+                if not _canon68(w) or w2 != w:
+                    fails.append(({'op': 'to68', 'x': x.hex(), 'impl': name},
+                                  f'{name}: to68({x.hex()}) = 0x{w:08X} is {"" if _canon68(w) else "not "}canonical, '
+                                  f'to68(from68(.)) = 0x{w2:08X}', None))
         if not (ws[0] == ws[1] == ws[2]):
             fails.append(({'op': 'to68', 'x': x.hex(), 'impl': 'all'},
                           f'to68({x.hex()}) differs: python {ws[0]} cython {ws[1]} c++ {ws[2]}', None))
@@ -861,6 +875,9 @@ def replay(ctx, rec):
         x = float.fromhex(case['x'])
         ws = {n: M[n].to68(x) for n in ('p', 'c', 'cp')}
         msgs = [f'{n}: ' + b[0] for n, w in ws.items() for b in [_to68_check(x, w)] if b]
+        for n, w in ws.items():
+            if isinstance(w, int) and 0 <= w < (1 << 32) and (not _canon68(w) or M[n].to68(M[n].from68(w)) != w):
+                msgs.append(f'{n}: to68({x.hex()}) = 0x{w:08X} is not a canonical fixed point of to68(from68(.))')
         if len(set(ws.values())) != 1:
             msgs.append(f'implementations differ: {ws}')
         return (not msgs), ('; '.join(msgs) or f'to68({x.hex()}) = {ws}')
